@@ -64,3 +64,12 @@ P["C02"] = {
     "assumptions": ["the shadow program (plaintext arithmetic mod (X^N+1, t)) is evaluated by the harness in Rust (30 lines, independent of the library)",
                     "the spec claims exact decryption when the conservative predicted budget is >= 4 bits or the exact budget is >= 1 bit; the prediction rule (harness/src/c02.rs pred_mul etc.) only decides where a claim is made"],
 }
+
+P["C05"] = {
+    "lean_modules": ["Heathcliff.Props.C05"],
+    "level": "proof",
+    "runs": lambda tier, seed: [{"seed": seed}] if tier == "quick" else [{"seed": seed * 1000 + i} for i in range(3)],
+    "search": lambda tier, seed: [{"seed": seed * 7919}],
+    "rule": "Chains of 1..6 data levels (plus key level), N = 4..32, three schemes, ciphertext sizes 2..4 (products without relinearisation), every (source level, target level) pair incl. upward (must be refused), every API form of mod_switch_to / rescale_to / to-next, each call on its own thread under a 20 s deadline (a call that does not return is a violation). BFV/BGV results are decrypted exactly and compared with the original message (`prog` lines); CKKS results are compared with the source ciphertext: exact phase (drop: equal mod the smaller modulus; rescale: |phase'·D - phase| <= D(1+N+..+N^(size-1)+1)), scale bit pattern = IEEE division chain, and the Lean model recomputes the destination ciphertext bit for bit.",
+    "assumptions": ["Lean's Float division is IEEE-754 binary64 division (same as Rust f64) — used only to predict the scale bit pattern"],
+}
